@@ -218,6 +218,29 @@ def make_machine(ctx):
         def forward_pass(self, b, L):
             self.do(("forward", b, L))
 
+        @precondition(lambda self: self.cfg is not None)
+        @rule(b=batch_spec(), at=st.integers(1, 4))
+        def aborted_batch(self, b, at):
+            self.do(("aborted", b, at))
+
+        def op_aborted(self, b, at):
+            """a batch whose decoding is cut short by a device fault at step `at` (the caches stay as they were at that moment)"""
+            count = [0]
+
+            def hook(mod, inp):
+                count[0] += 1
+                if count[0] == at:
+                    raise RuntimeError("CUDA error: device-side assert triggered")
+            handle = self.model.dec_out_proj.register_forward_pre_hook(hook)
+            try:
+                transcribe(self.engine, make_batch(b))
+                self.ctx.event("fault_step_not_reached")
+            except RuntimeError:
+                self.ctx.event("batch_aborted_by_a_fault")
+            finally:
+                handle.remove()
+            self.batches.append(b)
+
         def op_init(self, cfg):
             self.cfg = cfg
             self.pristine = build_model(cfg, max_seq_len=128)        # lines up to 400 px: cap of 100 steps
